@@ -174,7 +174,10 @@ def handle_violation(c, pool, res, found_by):
         sc2, v2, info = sc, v, {"minimised": False}
     # the minimised scenario must reproduce in a fresh interpreter under the recorded hash seed
     path = write_replay(c.prop, str(res.get("run_seed") or found_by.get("tag", "x")), sc2, v2, c.oracles,
-                        res.get("worker_hashseed", res.get("hashseed", 0)), c.known_sigs,
+                        # a failure may depend on the hash seed: record the one under which the scenario that is
+                        # written (the minimised one) was last seen to fail
+                        getattr(mini, "last_hashseed", None) or res.get("worker_hashseed", res.get("hashseed", 0)),
+                        c.known_sigs,
                         dict(found_by, minimisation=info))
     c.violations.append((v2, path))
 
